@@ -16,8 +16,8 @@ import (
 // Who-may-call / must-consult rules.
 
 func init() {
-	register(&Rule{ID: "SH-1", Min: 5, Run: runSH1,
-		Doc: "Check and Validate share one meaning of the rules: the document path (literalValidator.feed) and the schema-check path (literalChecker.Check, mixedChecker.Check) both call validator.ValidateLiteralValue, the LiteralValidator.Validate interface method is invoked nowhere else than there and in the key-shortcut matcher, and the array checker gives the example's own length to both item-count rules"})
+	register(&Rule{ID: "SH-1", Min: 4, Run: runSH1,
+		Doc: "Check and Validate share one meaning of the rules: the document path (literalValidator.feed) and the schema-check path (literalChecker.Check, mixedChecker.Check) both call validator.ValidateLiteralValue, the LiteralValidator.Validate interface method is invoked nowhere else than there and in the key-shortcut matcher"})
 	register(&Rule{ID: "SH-visit", Min: 4, Run: runSHVisit,
 		Doc: "the schema checker reaches every example node: checkNode's type switch has a case for every concrete type that implements schema.Node, it calls itself on every child of a branch node, and CheckRootSchema checks the root node and every added type"})
 	register(&Rule{ID: "UC-1", Min: 10, Run: runUC1,
@@ -96,27 +96,7 @@ func runSH1(c *load.Ctx, r *report.RuleResult) {
 	} else {
 		r.OK("shared|LiteralValidator.Validate callers", "", fmt.Sprintf("%d interface call site(s), all inside ValidateLiteralValue / checkConstraint", n))
 	}
-	// array checker: both count rules with the node's Len()
-	arr := c.Func(pkgChecker, "checkSchema.checkArrayNode")
-	if arr == nil {
-		r.Unk("shared|checker.checkArrayNode", "", "not found")
-		return
-	}
-	for _, rule := range []string{"MinItems", "MaxItems"} {
-		vt := c.Func(pkgConstraint, rule+".ValidateTheArray")
-		key := "arraycount|" + rule
-		ok := false
-		for _, site := range callSites(arr, vt) {
-			if len(site.Call.Args) >= 2 && derivesFromLen(site.Call.Args[1], 0) {
-				ok = true
-			}
-		}
-		if ok {
-			r.OK(key, c.Pos(arr.Pos()), "given the example array's own length")
-		} else {
-			r.Bad(key, c.Pos(arr.Pos()), "the example array's length is not checked against "+rule)
-		}
-	}
+	// (the array checker's item-count rules are decided by T-chkarray)
 }
 
 func derivesFromLen(v ssa.Value, depth int) bool {
